@@ -15,7 +15,9 @@ let parse_req (t : string) : req =
   let has set c = String.contains set c in
   let q = t.[1] and s = t.[3] in
   if not (has "PESHABCD" q) || not (has "PEHA" s) then raise (Bad t);
-  { r_mode = (match t.[0] with 'g' -> Plain | 'b' -> ConnectBlind | 'd' -> ConnectDown | 'm' -> ConnectMitm | _ -> raise (Bad t));
+  { r_mode = (match t.[0] with 'g' -> Plain | 'b' -> ConnectBlind | 'd' -> ConnectDown
+                           (* p = MITM'd CONNECT whose tunnel then carries plaintext HTTP: same exchanges *)
+                           | 'm' | 'p' -> ConnectMitm | _ -> raise (Bad t));
     q_hij = has "HACD" q; q_err = has "EABD" q; q_skip = has "SBCD" q;
     (* R = answered through a real transport by a real origin; E T U X = kinds of round trip error
        (io.EOF, timeout, unexpected EOF, deadline exceeded); Q S = real origin closes / never answers *)
